@@ -97,6 +97,11 @@ class PlanGen:
                     body.append(msg(S, "set", m, self._target[m], group=g))
             body.append(msg(S, "wait", None, group=g))
         devs = devices if devices is not None else [d for d in self.dets if rng.random() < 0.8] or self.dets[:1]
+        # the reading of a detector that cannot be replayed (trigger_and_read with rewindable=False): taken with
+        # rewinding switched off, then something replayable follows before the next checkpoint
+        nonrewind = bool(getattr(self, "nonrewind", 0.0)) and rng.random() < self.nonrewind
+        if nonrewind:
+            body.append(msg(S, "rewindable", None, False))
         if devs:
             g = self.group()
             for d in devs:
@@ -116,6 +121,10 @@ class PlanGen:
             body.append(msg(S, "drop", None, run=run))
         else:
             body.append(msg(S, "save", None, run=run))
+        if nonrewind:
+            body.append(msg(S, "rewindable", None, True))
+            body.append(msg(S, "sleep", None, rng.choice([0.05, 0.2])))
+            body.append(msg(S, "null"))
         return body
 
     def run_block(self, run=None, npoints=None, monitor=0.25, fly=0.3, sleep=0.2, md=None, fixed_devices=True, checkpoint=0.85):
@@ -182,9 +191,11 @@ class PlanGen:
                 # run B lives entirely inside run A: A goes on taking data after B was closed
                 safe, inb, pending = [], False, set()
                 for i, n_ in enumerate(a[:-1]):
-                    if n_.get("cmd") == "create":
-                        inb = True
-                    elif n_.get("cmd") in ("save", "drop"):
+                    if n_.get("cmd") == "create" or (n_.get("cmd") == "rewindable" and n_.get("args") == [False]):
+                        inb = True  # (nor inside a section with rewinding switched off: a move there cannot be repeated)
+                    elif n_.get("cmd") in ("save", "drop") and not any(x.get("cmd") == "rewindable" and x.get("args") == [True] for x in a[i + 1 : i + 2]):
+                        inb = False
+                    elif n_.get("cmd") == "rewindable" and n_.get("args") == [True]:
                         inb = False
                     g = (n_.get("kw") or {}).get("group")
                     if n_.get("cmd") == "wait":
@@ -217,6 +228,41 @@ class PlanGen:
         if rng.random() < 0.3:
             body.append({"op": "return", "value": rng.choice([7, "done", [1, 2]])})
         return body
+
+
+def builtin_plan(rng, specs):
+    """One of bluesky's own plans (bluesky.plans) with generated arguments: the message sequences users really
+    run - stage/unstage and run decorators, per-step checkpoints, `one_nd_step`, flyers."""
+    motors = names(specs, "motor", "pmotor")
+    dets = names(specs, "det", "pdet")
+    flyers = names(specs, "flyer", "pageflyer")
+    D = {"devs": [d for d in dets if rng.random() < 0.8] or dets[:1]}
+    m1 = {"dev": motors[0]}
+    n = rng.choice([1, 2, 3])
+    a, b = rng.choice([(-1, 1), (0, 2), (1, -1)])
+    kinds = ["count", "count", "scan", "list_scan", "rel_scan", "grid_scan", "rel_list_scan", "x2x_scan", "spiral_square", "log_scan"]
+    if flyers:
+        kinds += ["fly", "fly"]
+    kind = rng.choice(kinds)
+    if kind in ("grid_scan", "spiral_square") and len(motors) < 2:
+        kind = "scan"
+    if kind == "count":
+        return {"op": "plan", "name": "count", "args": [D], "kw": {"num": n, "delay": rng.choice([None, 0.1, 0])}}
+    if kind in ("scan", "rel_scan"):
+        return {"op": "plan", "name": kind, "args": [D, m1, a, b, max(n, 2)]}
+    if kind == "log_scan":
+        return {"op": "plan", "name": "log_scan", "args": [D, m1, 0, 1, max(n, 2)]}  # positions 10**0 .. 10**1
+    if kind in ("list_scan", "rel_list_scan"):
+        return {"op": "plan", "name": kind, "args": [D, m1, [rng.choice([0.5, 1.0, -1.0, 2.0]) for _ in range(n)]]}
+    if kind == "grid_scan":
+        return {"op": "plan", "name": kind, "args": [D, m1, a, b, 2, {"dev": motors[1]}, 0, 1, 2], "kw": {"snake_axes": rng.choice([True, False])}}
+    if kind == "x2x_scan":
+        if len(motors) < 2:
+            return {"op": "plan", "name": "scan", "args": [D, m1, a, b, 2]}
+        return {"op": "plan", "name": "x2x_scan", "args": [D, m1, {"dev": motors[1]}, 0, 1, 2]}
+    if kind == "spiral_square":
+        return {"op": "plan", "name": "spiral_square", "args": [D, m1, {"dev": motors[1]}, 0.0, 0.0, 1.0, 1.0, 2, 2]}
+    return {"op": "plan", "name": "fly", "args": [[{"dev": f} for f in flyers[:1]]]}
 
 
 # --------------------------------------------------------------------------------------
